@@ -126,6 +126,19 @@ CLAIMED = {
         "note": "Premise: unique node names. The embedded input's leaf_syntenies of an output is outside the listed fields and not compared.",
         "technique": TECH_E2,
     },
+    "C12": {
+        "category": "exploration",
+        "text": "Bounded-exhaustive over documented-format input files: every binary input with <=3x<=2 leaves (thorough <=3x<=3 and 4x<=2) x "
+                "ancestor naming patterns of both trees (all/none/each single one unnamed, pre-existing O0/O1/S0/S1, a species leaf named S0) x 7 "
+                "algorithms (labelled: consistent synteny tuples on <=2 families) x any/all x 3 cost options (quick rotates the options, thorough "
+                "crosses them), with and without explicit leaf_object_species; `reconcile` and `draw` run in-process, the first cases of each shard "
+                "also as real subprocesses. Verdict on status, one JSON object per line, unique non-empty names with the reference pre-order "
+                "numbering, cost() of each parsed-back object = printed minimum, all contains any, draw accepts each object in both orientations, "
+                "status 1 + empty output without syntenies.",
+        "design_ref": "6 (C12)",
+        "note": "Trusted: the in-process driver (conformance-checked against subprocess runs each run), the stub TeX measurer, ete3's Newick parser.",
+        "technique": TECH_E2,
+    },
     "C16": {
         "category": "model_checking",
         "text": "Explicit-state BFS over all reachable states of real Entry objects and table cells (1-3 dimensional, "
